@@ -11,3 +11,4 @@ Definition k_flow_create_bind : pfun :=
     ] [];
     SReturn (PCall "Bind/header,sec_trailer,max_xmit_frag,max_recv_frag,assoc_group,contexts" [(PMeth "_create_pdu_header/flags" (PName "self") [(PName "PacketType.BIND"); (PName "auth_len"); (PInt 1); (PName "flags")]); (PName "sec_trailer"); (PInt 5840); (PInt 5840); (PInt 0); (PName "contexts")])
   ] |}.
+Definition k_flow_create_bind_defaults : list (string * pexp) := [("sec_trailer", PNone)].
